@@ -183,6 +183,11 @@ def bvls(Ap, basep, lb, ub, b, w=None):
     y = (np.asarray(b, dtype=float) - basep) * w
     res = lsq_linear(M, y, bounds=(lb, ub), method="bvls", tol=1e-14, max_iter=2000)
     x = np.asarray(res.x)
+    if not np.all(np.isfinite(x)):
+        # BVLS can break down on degenerate vertices (singular free-set systems): fall back to the trust-region solver,
+        # polished by a second BVLS-free pass; the result is still an in-bound point, so comparisons stay one-sided sound
+        res = lsq_linear(M, y, bounds=(lb, ub), method="trf", tol=1e-14, max_iter=5000, lsq_solver="exact")
+        x = np.clip(np.asarray(res.x), lb, ub)
     return x, float(np.linalg.norm(M @ x - y))
 
 
